@@ -54,6 +54,10 @@ def theorem_table():
         if os.path.exists(fn):
             for m in re.finditer(r'^theorem\s+([A-Za-z0-9_\.]+)', open(fn).read(), re.M):
                 names.append(m.group(1))
+        if p == 'C13':
+            g = os.path.join(LEAN, 'LexgenModel', 'Generated', 'TablesCheck.lean')
+            if os.path.exists(g):
+                names += ['Generated.' + m.group(1) for m in re.finditer(r'^theorem\s+([A-Za-z0-9_\.]+)', open(g).read(), re.M)]
         out[p] = names
     return out
 
